@@ -355,6 +355,10 @@ def run_property(mod, tier: str, seed: int, replay: str | None = None, jobs: int
     if stride > 1 and not replay:
         # smoke-testing aid only (never set by the registered commands): run every k-th case
         all_cases = all_cases[::stride]
+    match = os.environ.get("VERIF_CASE_MATCH", "")
+    if match and not replay:
+        # smoke-testing aid only (never set by the registered commands): cases whose id contains the text
+        all_cases = [c for c in all_cases if match in c.id]
     ids = [c.id for c in all_cases]
     if len(set(ids)) != len(ids):
         dup = sorted({i for i in ids if ids.count(i) > 1})
